@@ -65,6 +65,7 @@ let parse_event (cfgs : config array) (tok : string) : event =
   | "CB" ->
     (match tail tok 2 with
      | "E" -> ECallback CbErr
+     | "O" -> ECallback CbErrOld
      | "N" -> ECallback CbNil
      | k -> ECallback (CbCfg cfgs.(int_of_string k)))
   | "SH" -> EShutdownCall (nat_tail tok 2)
